@@ -9,7 +9,7 @@
 (*                         PatternsOps, OrdinalOps, TitleCaseOps, PosConvOps        *)
 (*  layer 2 - dictionaries: DictOps, (Spell, Dict)                                  *)
 (*  layer 3 - stateful components: LintGroup, ConfigOps, IgnoreOps, StatsLog,       *)
-(*                         DictFile, SourceFile                                     *)
+(*                         DictFile, FileDictName, SourceFile, SegmentsOps            *)
 (*  layer 4 - long-lived objects: JsLinter (harper-wasm), LspServer (harper-ls),     *)
 (*                         EffectsOps (process boundary)                             *)
 EXTENDS Naturals, Sequences
@@ -24,6 +24,7 @@ Cf == INSTANCE ConfigOps
 Ig == INSTANCE IgnoreOps
 Po == INSTANCE PosConvOps
 Ef == INSTANCE EffectsOps
+Sg == INSTANCE SegmentsOps
 
 \* C01  a check request returns: every pattern honours the match contract, the lexer advances
 C01_MatchContract(p, toks) == Pa!Contract(p, toks, TRUE)
@@ -37,7 +38,8 @@ C03_Edit(kind, repl, s, e, before, after) == after = Sp!Apply(kind, repl, s, e, 
 \* C04  only prose is offered, at its true offset          -> SourceFile!OnlyProseIsMasked, Trace_SourceFile
 \* C05  caches are unobservable                            -> LintGroup!CacheUnobservable
 \* C06  reported misspelt exactly when not in the dictionary -> Spell!ListedAccepted, CasedFormsAccepted, UnknownFlagged
-\* C07  added words are accepted and never lost            -> DictFile!NeverLosesExceptKnown, JsLinter!ImportedWordsAccepted
+\* C07  added words are accepted and never lost            -> DictFile!NeverLosesExceptKnown, JsLinter!ImportedWordsAccepted,
+\*                                                            FileDictName!Fits, Distinct
 \* C08  diagnostics and edits land on the flagged text
 C08_RangeCovers(t, s, e) == Po!RangeToSpan(t, Po!SpanToRange(t, s, e), TRUE) = <<s, e>>
 C08_ClientEdit(t, s, e, new) == Po!ClientApply(t, Po!SpanToRange(t, s, e), new) = Sp!Apply("ReplaceWith", new, s, e, t)
@@ -48,7 +50,8 @@ C10_ForbiddenDependency(name) == name \in Ef!ForbiddenDeps
 \* C11  rule switches do what they say
 C11_Overlay(user, curated) == Cf!OverlayOk(user, curated, Cf!FillWithCurated(user, curated))
 C11_Merge(a, b) == Cf!MergeOk(a, b, Cf!MergeFrom(a, b))
-\* C12  paragraphs compose                                  -> Paragraphs!Composes
+\* C12  paragraphs compose                                  -> Paragraphs!Composes, Segments!Composes
+C12_Cut(kinds, which, slices) == Sg!PropertyOk(kinds, slices) /\ slices = Sg!Split(kinds, Sg!TermOf(which))
 \* C13  overlap removal returns a conflict-free sub-list
 C13_Post(in, out) == Ov!Post(in, out)
 \* C14  ignoring hides that lint, only it, durably          -> Ignore!HidesIt, OnlyIt, KeepsHiding
@@ -56,7 +59,7 @@ C14_Identity(doc, lint) == Ig!PId(doc, lint)
 \* C15  dictionary back-ends agree; fuzzy search is sound and complete for lower case
 C15_Fuzzy(words, q, bound, cap, res) == Di!FuzzySound(words, q, bound, cap, res) /\ Di!FuzzyComplete(words, q, bound, cap, res)
 C15_Distance(a, b) == Di!WagnerFischer(a, b) = Di!Lev(a, b)
-\* C16  the JS-facing API is self-consistent                -> JsLinter!CloneBehavesTheSame, Trace_JsLinter
+\* C16  the JS-facing API is self-consistent                -> JsLinter!CloneBehavesTheSame, AnswerIsCurrent, Trace_JsLinter
 \* C17  ordinal suffixes
 C17_Verdict(d, sfx, lower) == Or!RuleVerdict(d, sfx, lower, TRUE) = Or!PropertyVerdict(d, sfx)
 \* C18  title-casing only changes case and is idempotent    -> TitleCase!LengthKept, OnlyCase, FirstCap, Idempotent
